@@ -18,7 +18,7 @@ func runC12(e *Env) error {
 	e.ShardBytes = 120000
 	e.ShardSize = 150
 	e.Rule = "per topic: honest messages over the slots/committees/subnets of a window on chains built with the real transition (real BLS signatures), plus every single-condition corruption and the timing/availability failures; non-trivial = every case (each runs a validator against a chain view); distinct by (topic, corruption, verdict, ordinal)"
-	g := &Gen{E: e, Count: map[string]int{}}
+	g := &Gen{E: e, Count: map[string]int{}, Salt: e.Rng.Intn(1 << 20)}
 	c := NewCrypto()
 	lap := func(what string) { fmt.Fprintf(os.Stderr, "%-28s %8.2fs  cases so far %d\n", what, time.Since(t0).Seconds(), g.Total) }
 
@@ -27,7 +27,7 @@ func runC12(e *Env) error {
 	sc := buildChain(small, 36)
 	lap("chain small")
 	heads := []*Node{sc.BySlot[3], sc.BySlot[7], sc.BySlot[12], sc.BySlot[20], sc.Tip(), sc.Side[len(sc.Side)-1]}
-	sample := []common.ValidatorIndex{0, 9, 17, 33, 63}
+	sample := []common.ValidatorIndex{0, common.ValidatorIndex(7 + g.Salt%5), common.ValidatorIndex(17 + g.Salt%11), common.ValidatorIndex(33 + g.Salt%13), 63}
 	g.genExits(small, heads, sample, sc.Special)
 	g.genProposerSlashings(small, heads, sample, sc.Special)
 	g.genAttesterSlashings(small, heads, sc.Special)
